@@ -276,7 +276,7 @@ func VerifLemma_C16C_BufLockV2() {
 	dup := false
 	for i := 0; i < nDeps; i++ {
 		k := verifNondetChoice(3)
-		d := externalBufLockFileDepV2{Name: vLockNames[k], Commit: vLockCommits[verifNondetChoice(3)], Digest: vLockDigestB5[verifNondetChoice(2)]}
+		d := externalBufLockFileDepV2{Name: vLockNames[k], Commit: vLockCommits[i%3], Digest: vLockDigestB5[i%2]}
 		switch verifNondetChoice(4) {
 		case 1:
 			d.Name = ""
